@@ -29,6 +29,7 @@ from wpull.protocol.ftp.request import Request as FTPRequest, Response as FTPRes
 from drivers import warcwriter_reader as rd
 
 _builtin_open = open
+from urllib.parse import unquote as _unquote
 FAULTABLE = ('j.open', 'j.write', 'j.close', 'a.open', 'a.write', 'a.close', 'j.remove')
 
 
@@ -44,11 +45,17 @@ def role_of(path):
 
 
 META_ID = 11
+# the --warc-file prefix: any legal file name.  (The model identifies files by number; the name class is a parameter
+# of the scenario only.)  'class': characters that glob takes for a character class; 'blank': the CDX delimiter
+PREFIX = {'plain': 'a', 'class': 'a[1]', 'blank': 'a b', 'star': 'a*'}
 
 
 def file_id(name):
     """Model file id of an archive name: a.warc[.gz] -> 0, a-0000N -> N + 1, a-meta -> 11."""
     b = os.path.basename(str(name))
+    for pf in ('a[1]', 'a b', 'a*'):
+        if b.startswith(pf):
+            b = 'a' + b[len(pf):]
     if b.endswith('-wpullinc'):
         b = b[:-len('-wpullinc')]
     stem = b.split('.warc')[0]
@@ -388,7 +395,7 @@ class Exec(object):
         self.mdir = os.path.join(self.base, 'moved')
         for d in (self.wdir, self.tdir, self.mdir):
             os.makedirs(d, exist_ok=True)
-        self.prefix = os.path.join(self.wdir, 'a')
+        self.prefix = os.path.join(self.wdir, PREFIX[self.scn.get('params', {}).get('pfx', 'plain')])
         self.fault_at = fault_at
         self.crash_at = crash_at
         self.keep_raw_at = set(keep_raw_at)
@@ -799,7 +806,9 @@ class Exec(object):
                         continue
                     cdx.append({'wf': True, 'u': self._intern(self.strs, ln['url']),
                                 'r': self._intern(self.rids, ln['rid']),
-                                'o': ln['off'], 'l': ln['len'], 'g': names.get(ln['file'], 99),
+                                'o': ln['off'], 'l': ln['len'],
+                                # the name as it is, or with the delimiter percent-encoded
+                                'g': names.get(ln['file'], names.get(_unquote(ln['file']), 99)),
                                 'st': max(ln['status'], 0), 'mi': self._intern(self.strs, ln['mime'].lower()),
                                 'dg': self._intern(self.strs, ln['digest'])})
                 continue
